@@ -1,20 +1,22 @@
 #!/bin/bash
-# usage: tools/mut_test.sh <tag> <Cxx[,Cyy]> <patch1.diff> [<patch2.diff> ...]
+# usage: tools/mut_test.sh <tag> <default-props> <patch.diff[@Cxx,Cyy]> ...
 # One scratch worktree (incremental builds); each patch is applied, the checks run with VERIF_REPO, then reverted.
-# Finally the clean worktree is checked too (must exit 0).
+# Finally the clean worktree is checked with the default props (must exit 0).
 set -u
-tag=$1; props=${2//,/ }; shift 2
+tag=$1; defprops=$2; shift 2
 wt=/tmp/wt-$tag
 git -C /repo worktree remove --force $wt >/dev/null 2>&1; rm -rf $wt
 git -C /repo worktree add --detach $wt HEAD >/dev/null 2>&1 || { echo "worktree failed"; exit 2; }
-for patch in "$@" CLEAN; do
+for spec in "$@" CLEAN; do
+  patch=${spec%@*}; props=$defprops
+  [ "$spec" != "$patch" ] && props=${spec#*@}
   if [ "$patch" != CLEAN ]; then
     git -C $wt apply "$patch" || { echo "PATCH DID NOT APPLY: $patch"; continue; }
   fi
-  for p in $props; do
+  for p in ${props//,/ }; do
     out=/tmp/mut-$tag-$p-$(basename $patch .diff).out
     VERIF_REPO=$wt /verif/check $p > $out 2>&1; rc=$?
-    echo "== $(basename $patch) $p exit=$rc"; grep -E "^VIOLATION|^KNOWN|no longer checks|violation " $out | cut -c1-260 | head -6
+    echo "== $(basename $patch) $p exit=$rc"; grep -E "^VIOLATION|^KNOWN|no longer checks|violation " $out | cut -c1-260 | sort | uniq -c | sort -rn | head -5
   done
   git -C $wt checkout -- . ; git -C $wt clean -fdq
 done
